@@ -854,8 +854,8 @@ def sPos : Items → Nat → Nat
 /-! ### `Array.prototype.pop` (builtin_array.go:117 generic, :130 fast path on `*arrayObject`) -/
 
 /-- builtin_array.go:130–160: the fast path. `none` = "optimisation bail-out" to the generic path
-(last slot empty or a `*valueProperty`). `decr` distinguishes the code as it is (`false`: `objCount`
-is not decremented) from the patched code (`true`, fixes/C07-pop-fastpath-objCount.diff). -/
+(last slot empty or a `*valueProperty`). `decr = true` is the code as it is (`a.objCount--`, since 4d714fc);
+`decr = false` is the code before that repair (kept for the regression lemma `pop_prefix_witness`). -/
 def Dense.popFast (a : Dense) (decr : Bool) : Option (Dense × Bool) :=
   if a.length > 0 then
     let l := a.length - 1
